@@ -66,14 +66,25 @@ pub struct Execution<R> {
     pub choices: Vec<usize>,
     pub results: Vec<R>,
     pub infeasible: bool,
+    /// some thread blocked on a resource the scheduler does not own and was left loose
+    pub overlapped: bool,
 }
 
 /// One thread body: runs with the gate installed; must call `point()` (directly or through callbacks).
 pub type Body<R> = Arc<dyn Fn() -> R + Send + Sync>;
 
 const STEP_TIMEOUT: Duration = Duration::from_millis(1500);
+/// a thread that does not reach its next point within this time is blocked on something the
+/// scheduler does not own (e.g. a lock held by a preempted thread)
+const BLOCK_TIMEOUT: Duration = Duration::from_millis(60);
 
 /// Run the program once: follow `prefix` (indices into each point's `enabled`), then choice 0.
+///
+/// A scheduled thread that blocks (does not reach a point within BLOCK_TIMEOUT) is left *loose*:
+/// the controller schedules another waiting thread, exactly as an OS scheduler would; the loose
+/// thread rejoins the controlled set at its next point. While a thread is loose two threads may
+/// overlap for the rest of the loose thread's segment; such executions are flagged `overlapped`
+/// (still real executions of the real code, but not replayable bit for bit).
 pub fn run_once<R: Send + 'static + Default>(bodies: &[Body<R>], prefix: &[usize]) -> Execution<R> {
     let n = bodies.len();
     let s = Sched::new(n);
@@ -94,25 +105,76 @@ pub fn run_once<R: Send + 'static + Default>(bodies: &[Body<R>], prefix: &[usize
     let mut choices = vec![];
     let mut prev: Option<usize> = None;
     let mut infeasible = false;
+    let mut overlapped = false;
+    let mut loose: Vec<bool> = vec![false; n];
+    // the thread the controller is currently waiting for (None at the start: wait for everybody)
+    let mut awaited: Option<usize> = None;
     'outer: loop {
-        // wait until nobody is running
-        let deadline = Instant::now() + STEP_TIMEOUT;
         let mut st = s.m.lock().unwrap_or_else(|e| e.into_inner());
-        while st.turn.is_some() || st.status.iter().any(|&x| x == 0) {
-            let now = Instant::now();
-            if now >= deadline {
-                // a thread is blocked on something the scheduler does not own
-                st.free_run = true;
-                s.cv.notify_all();
-                infeasible = true;
-                break 'outer;
+        // 1. wait for the awaited thread to stop running (point reached or done), or declare it loose
+        let block_deadline = Instant::now() + if awaited.is_some() { BLOCK_TIMEOUT } else { STEP_TIMEOUT };
+        loop {
+            for t in 0..n {
+                if loose[t] && st.status[t] != 0 {
+                    loose[t] = false; // rejoined the controlled set
+                }
             }
-            let (g, _) = s.cv.wait_timeout(st, deadline - now).unwrap_or_else(|e| e.into_inner());
+            let running_controlled = match awaited {
+                Some(t) => st.turn.is_some() || st.status[t] == 0,
+                None => st.turn.is_some() || (0..n).any(|t| st.status[t] == 0 && !loose[t]),
+            };
+            if !running_controlled {
+                break;
+            }
+            let now = Instant::now();
+            if now >= block_deadline {
+                match awaited {
+                    Some(t) if st.turn.is_none() => {
+                        loose[t] = true;
+                        overlapped = true;
+                        break;
+                    }
+                    _ => {
+                        st.free_run = true;
+                        s.cv.notify_all();
+                        infeasible = true;
+                        break 'outer;
+                    }
+                }
+            }
+            let (g, _) = s.cv.wait_timeout(st, block_deadline - now).unwrap_or_else(|e| e.into_inner());
             st = g;
         }
+        // 2. decide
         let mut enabled: Vec<usize> = (0..n).filter(|&t| st.status[t] == 1).collect();
         if enabled.is_empty() {
-            break;
+            if (0..n).all(|t| st.status[t] == 2) {
+                break;
+            }
+            // only loose threads are left: wait for one of them to reach a point or finish
+            let deadline = Instant::now() + STEP_TIMEOUT;
+            loop {
+                if (0..n).any(|t| st.status[t] == 1) || (0..n).all(|t| st.status[t] == 2) {
+                    break;
+                }
+                let now = Instant::now();
+                if now >= deadline {
+                    st.free_run = true;
+                    s.cv.notify_all();
+                    infeasible = true; // deadlock among threads the scheduler does not own
+                    break 'outer;
+                }
+                let (g, _) = s.cv.wait_timeout(st, deadline - now).unwrap_or_else(|e| e.into_inner());
+                st = g;
+            }
+            awaited = None;
+            for t in 0..n {
+                if st.status[t] != 0 {
+                    loose[t] = false;
+                }
+            }
+            drop(st);
+            continue;
         }
         let running_still_enabled = prev.map_or(false, |p| enabled.contains(&p));
         if let (true, Some(p)) = (running_still_enabled, prev) {
@@ -122,7 +184,14 @@ pub fn run_once<R: Send + 'static + Default>(bodies: &[Body<R>], prefix: &[usize
         let k = points.len();
         let choice = if k < prefix.len() { prefix[k] } else { 0 };
         if choice >= enabled.len() {
-            // divergence while replaying a prefix: hard error
+            if overlapped {
+                // a loose thread made this replay diverge: give up on this schedule
+                st.free_run = true;
+                s.cv.notify_all();
+                infeasible = true;
+                break 'outer;
+            }
+            // divergence while replaying a prefix under full control: hard error
             st.free_run = true;
             s.cv.notify_all();
             drop(st);
@@ -135,6 +204,7 @@ pub fn run_once<R: Send + 'static + Default>(bodies: &[Body<R>], prefix: &[usize
         points.push(Point { enabled, running_still_enabled });
         choices.push(choice);
         prev = Some(tid);
+        awaited = Some(tid);
         st.turn = Some(tid);
         s.cv.notify_all();
     }
@@ -142,19 +212,20 @@ pub fn run_once<R: Send + 'static + Default>(bodies: &[Body<R>], prefix: &[usize
     for h in handles {
         results.push(h.join().ok().flatten().unwrap_or_default());
     }
-    Execution { points, choices, results, infeasible }
+    Execution { points, choices, results, infeasible, overlapped }
 }
 
 pub struct Exploration {
     pub executions: u64,
     pub infeasible: u64,
+    pub overlapped: u64,
     pub max_points: usize,
 }
 
 /// Explore every schedule with at most `bound` preemptions (CHESS-style, by re-execution).
 /// `check` is called with (choices, results) of every complete feasible execution.
 pub fn explore<R: Send + 'static + Default>(bodies: &[Body<R>], bound: usize, check: &mut dyn FnMut(&[usize], &[R])) -> Exploration {
-    let mut ex = Exploration { executions: 0, infeasible: 0, max_points: 0 };
+    let mut ex = Exploration { executions: 0, infeasible: 0, overlapped: 0, max_points: 0 };
     fn preemptions(points: &[Point], choices: &[usize], upto: usize) -> usize {
         (0..upto).filter(|&i| points[i].running_still_enabled && choices[i] != 0).count()
     }
@@ -162,6 +233,9 @@ pub fn explore<R: Send + 'static + Default>(bodies: &[Body<R>], bound: usize, ch
         let x = run_once(bodies, &prefix);
         ex.executions += 1;
         ex.max_points = ex.max_points.max(x.points.len());
+        if x.overlapped {
+            ex.overlapped += 1;
+        }
         if x.infeasible {
             ex.infeasible += 1;
             return;
